@@ -162,6 +162,9 @@ def accStep (op : Rat → Rat → Rat) (acc : Option Rat) (e : Entry PV) : Optio
   if e.pri.cls = 0 then acc
   else some (match acc with | none => e.pri.priority | some m => op m e.pri.priority)
 
+theorem rat_min_comm (a b : Rat) : min a b = min b a := by grind
+theorem rat_max_comm (a b : Rat) : max a b = max b a := by grind
+
 theorem do_maintenance_loop (s : PosPQ) (limit : Int) (rest pre : List (Entry PV)) (i : Nat)
     (hi : i = pre.length) (mn mx : Option Rat) (st : List (Nat × Nat)) :
     Gen.PosPQ.do_maintenance_loop1 H gp draw limit rest i mn mx st (withPq s (pre ++ rest))
@@ -176,7 +179,8 @@ theorem do_maintenance_loop (s : PosPQ) (limit : Int) (rest pre : List (Entry PV
       GenEq.pvPriority_eq, h1, List.foldl_cons, stragIdx, isStrag, accStep]
     by_cases hc : e.pri.cls = 0
     · simp [hc]
-    · cases mn <;> cases mx <;> by_cases hl : (e.pri.insertedAt : Int) < limit <;> simp [hc, hl]
+    · cases mn <;> cases mx <;> by_cases hl : (e.pri.insertedAt : Int) < limit <;>
+        simp [hc, hl, rat_min_comm e.pri.priority, rat_max_comm e.pri.priority]
 
 /-- a straggler that `boost_stragglers` really boosts: base priority above `min_pri`, non-zero boost -/
 def boosts (factor minPri : Rat) (draw : Nat → Rat) (limit : Int) (e : Entry PV) : Bool :=
@@ -290,8 +294,10 @@ theorem boost_stragglers_eq (s : PosPQ) (limit : Int) (minPri maxPri : Rat) :
   by_cases hb : s.q.pq.any (boosts s.factor minPri draw limit) = true
   · have hpos : List.countP (boosts s.factor minPri draw limit) s.q.pq > 0 := by
       rw [gt_iff_lt, List.countP_pos_iff]; simpa using hb
-    simp only [hpos, hb, if_true]
-    simp [PQ.refresh, withPq]
+    have hpos' : 1 ≤ List.countP (boosts s.factor minPri draw limit) s.q.pq := hpos
+    have hne : List.countP (boosts s.factor minPri draw limit) s.q.pq ≠ 0 := by omega
+    simp only [hb, if_true]
+    simp [hpos, hpos', hne, PQ.refresh, withPq]
   · have hz : List.countP (boosts s.factor minPri draw limit) s.q.pq = 0 := by
       rw [List.countP_eq_zero]; simpa using hb
     simp [hz, hb, map_boostEntry_of_countP draw _ _ _ _ hz]
